@@ -147,7 +147,15 @@ func keyRecordJSON(k *rKey, idPrefix string) map[string]interface{} {
 		m["id"] = id
 	}
 
-	if k.Type != "missing" {
+	switch k.Type {
+	case "missing":
+	case "empty":
+		m["type"] = ""
+	case "number":
+		m["type"] = 7
+	case "null":
+		m["type"] = nil
+	default:
 		m["type"] = k.Type
 	}
 
@@ -332,6 +340,12 @@ func rulePatchJSON(c *rCase) (interface{}, string) {
 			m[key] = []interface{}{ok1}
 		case "ok_two":
 			m[key] = []interface{}{ok1, ok2}
+		case "ok_many":
+			if key == "uris" {
+				m[key] = []interface{}{"identityURI", "#alice", "?q=1", "../x", "example.com/alice"}
+			} else {
+				m[key] = []interface{}{"K_-9", strings.Repeat("Z", 50), "0", "_", "-"}
+			}
 		case "empty":
 			m[key] = []interface{}{}
 		case "not_array":
@@ -558,7 +572,7 @@ func randomRule(r *rand.Rand) rCase {
 	switch r.Intn(10) {
 	case 0, 1, 2, 3:
 		k := rKey{ID: randomID(r), Extra: pickS(r, "none", 0.85, "controller", "foo", "publicKeyMultibase")}
-		k.Type = pickS(r, allKeyTypes[r.Intn(len(allKeyTypes))], 0.9, "Unknown2099", "missing")
+		k.Type = pickS(r, allKeyTypes[r.Intn(len(allKeyTypes))], 0.9, "Unknown2099", "missing", "empty", "number", "null")
 		k.Material = pickS(r, "jwk", 0.6, "b58", "b58", "both", "none")
 		k.Jwk = pickS(r, "ec", 0.5, "okp", "rsa", "nokty", "nocrv", "nox", "rsa_non", "rsa_noe", "notobject")
 		k.PP.Set = []string{}
@@ -595,7 +609,7 @@ func randomRule(r *rand.Rand) rCase {
 		return rCase{Kind: "svc", S: &s, Wrap: pickS(r, "add", 0.6, "replace"), Dup: r.Float64() < 0.07}
 	case 7:
 		a := []string{"remove-public-keys", "remove-services", "add-also-known-as", "remove-also-known-as"}[r.Intn(4)]
-		v := []string{"ok_one", "ok_two", "empty", "not_array", "missing_value", "bad_entry_first", "bad_entry_last", "dup", "dup_respelled"}[r.Intn(9)]
+		v := []string{"ok_one", "ok_two", "ok_many", "empty", "not_array", "missing_value", "bad_entry_first", "bad_entry_last", "dup", "dup_respelled"}[r.Intn(10)]
 
 		return rCase{Kind: "list", Action: a, V: v}
 	case 8:
